@@ -177,6 +177,15 @@ func sameDigits(a, b []int) bool {
 	return true
 }
 
+// base-4 digits of a word without its leading zeros
+func wordText(d []int) string {
+	s := strings.TrimLeft(digitsKey(d), "0")
+	if s == "" {
+		s = "0"
+	}
+	return s
+}
+
 func digitsKey(d []int) string {
 	b := make([]byte, len(d))
 	for i, x := range d {
@@ -468,8 +477,8 @@ func compareKeys(got idxObs, wantKeys []string, wantStrs []string, wl int) (asse
 	for j := range wantKeys {
 		want := padDigits(lettersDigits(wantKeys[j]), wl)
 		if !sameDigits(got.keys[j], want) {
-			return "C19.canonical_key", fmt.Sprintf("key %d is the word %s (KmerAsString %q), Kmer.tla says %q = %s",
-				j, digitsKey(got.keys[j]), got.strs[j], wantKeys[j], digitsKey(want))
+			return "C19.canonical_key", fmt.Sprintf("key %d is the base-4 word %s (KmerAsString %q), Kmer.tla says %q = %s",
+				j, wordText(got.keys[j]), got.strs[j], wantKeys[j], wordText(want))
 		}
 	}
 	if wantStrs != nil {
